@@ -595,23 +595,25 @@ Qed.
     batch 1 was undelegated an stSei unbond closes batch 2; the two undelegation times are
     1000031 and 1000062 (epoch 30 s); batch 1 is unreleased and untouched (its unbonding period of
     100 s has not elapsed) *)
+Definition cx_w2b : world :=
+  run_ops (cx_setup ++ cx_acts1 ++ cx_acts2 ++ [OAdvance 31]) (empty_world 100).
+
 Example example_second_batch_nonvacuous :
-  exists h h' out e1 e2, let w := fst (step cx_w2 (OAdvance 31)) in
-    w_hub w = Some h /\ LifeInv h /\
-    hub_execute w h A_hub A_stsei [] (HReceive cx_bob 500 HkUnbond) = Some (h', out) /\
+  exists h h' out e1 e2,
+    w_hub cx_w2b = Some h /\ LifeInv h /\
+    hub_execute cx_w2b h A_hub A_stsei [] (HReceive cx_bob 500 HkUnbond) = Some (h', out) /\
     cb_id (h_batch h) = 2 /\ cb_id (h_batch h') = 3 /\
     get N.eqb (h_hist h) 1 = Some e1 /\ he_released e1 = false /\
-    e_now (w_env w) < he_time e1 + hp_unbonding (h_params h) /\
+    e_now (w_env cx_w2b) < he_time e1 + hp_unbonding (h_params h) /\
     get N.eqb (h_hist h') 1 = Some e1 /\
     get N.eqb (h_hist h') 2 = Some e2 /\ he_time e1 = 1000031 /\ he_time e2 = 1000062 /\
     undelegated_sum out = 497.
 Proof.
-  destruct (w_hub (fst (step cx_w2 (OAdvance 31)))) as [h|] eqn:E; [|vm_compute in E; discriminate].
-  assert (HI : LifeInv h).
-  { unfold cx_w2 in E.
-    apply (LifeInv_reachable 100 ((cx_setup ++ cx_acts1 ++ cx_acts2) ++ [OAdvance 31])).
-    unfold run_ops in *. rewrite fold_left_app. exact E. }
+  unfold cx_w2b.
+  destruct (w_hub (run_ops (cx_setup ++ cx_acts1 ++ cx_acts2 ++ [OAdvance 31]) (empty_world 100)))
+    as [h|] eqn:E; [|vm_compute in E; discriminate].
+  pose proof (LifeInv_reachable 100 _ h E) as HI.
   vm_compute in E. inversion E; subst h. clear E.
-  eexists _, _, _, _, _. cbn zeta. split; [vm_compute; reflexivity|]. split; [exact HI|].
+  eexists _, _, _, _, _. split; [reflexivity|]. split; [exact HI|].
   split; [vm_compute; reflexivity|]. vm_compute. repeat split.
 Qed.
